@@ -66,7 +66,14 @@ var engCounter int
 
 func newEngine(spec EngineSpec) (*Eng, error) {
 	engCounter++
-	dir := filepath.Join(workRoot, fmt.Sprintf("e%d-%d", os.Getpid(), engCounter))
+	// a unique, EMPTY directory: a left-over directory of a killed process whose pid was reused must never be picked up
+	if err := os.MkdirAll(workRoot, 0o755); err != nil {
+		return nil, err
+	}
+	dir, err := os.MkdirTemp(workRoot, fmt.Sprintf("e%d-%d-", os.Getpid(), engCounter))
+	if err != nil {
+		return nil, err
+	}
 	if err := os.MkdirAll(filepath.Join(dir, "template", "page"), 0o755); err != nil {
 		return nil, err
 	}
